@@ -162,6 +162,42 @@ example : (clientTry c1 1000 "A".toList "other".toList "60007".toList .authorize
 example : (clientTry c1 1000 "A".toList "srv".toList "60008".toList .authorized).2 = .full := by decide
 example : (clientTry c1 9000 "A".toList "srv".toList "60007".toList .authorized).2 = .full := by decide
 
+/-- **invalidate_leaves_no_route** (last clause, on the RAW command map): after `Invalidate sid` no
+    mapping leads to `sid` and no entry is filed under it — whether or not an entry was still there
+    (a by-id lookup may have dropped an expired entry and left its mappings; fix D24). -/
+theorem invalidate_leaves_no_route (c : Cache) (sid : Str) :
+    (∀ p ∈ (c.invalidate sid).cmdMap, p.2 ≠ sid) ∧ (c.invalidate sid).get sid = none :=
+  ⟨invalidate_no_routes' c sid, get_invalidate_self c sid⟩
+
+/-- **sweep_leaves_no_dangling_route** (last clause, on the RAW command map): after the expiry sweep
+    (`InvalidateExpired`) — run on ANY cache, in particular one where earlier by-id lookups already
+    dropped expired entries, so that this pass itself expires nothing — every mapping that is left
+    leads to an identifier the cache holds. -/
+theorem sweep_leaves_no_dangling_route (c : Cache) (now : Nat) :
+    ∀ p ∈ (c.invalidateExpired now).cmdMap, ((c.invalidateExpired now).get p.2).isSome = true := by
+  intro p hp
+  unfold Cache.invalidateExpired at hp ⊢
+  simp only [List.mem_filter] at hp
+  simpa [Cache.get] using hp.2
+
+/-- … and such a mapping leads to a session that has not expired -/
+theorem sweep_routes_live (c : Cache) (now : Nat) (p : Str × Str) (e : Entry)
+    (hp : p ∈ (c.invalidateExpired now).cmdMap) (hg : (c.invalidateExpired now).get p.2 = some e) :
+    e.expired now = false := by
+  unfold Cache.invalidateExpired Cache.get at hg
+  simp only at hg
+  have hm := lookup_mem _ _ _ hg
+  have := (List.mem_filter.mp hm).2
+  simpa using this
+
+/-- **legacy_invalidate_leaves_route**: what `Invalidate` did before fix D24, as a concrete history:
+    the session expires, a by-id lookup drops the entry, `Invalidate` finds no entry and leaves the
+    routes — they lead to whatever is filed under the identifier next. -/
+theorem legacy_invalidate_leaves_route :
+    ((c1.lookupNonExpired 9000 "s1".toList).1.invalidateLegacy "s1".toList).cmdMap ≠ [] := by decide
+example : ((c1.lookupNonExpired 9000 "s1".toList).1.invalidate "s1".toList).cmdMap = [] := by decide
+example : ((c1.lookupNonExpired 9000 "s1".toList).1.invalidateExpired 9000).cmdMap = [] := by decide
+
 /-- **explicit_id_plants_no_route**: a handshake that names a cached session by id (under whatever
     tag, server and command the connection is for) never adds a binding to the command map — every
     (key ↦ session) pair present afterwards was present before. So no later ordinary handshake can
@@ -183,14 +219,10 @@ theorem explicit_id_plants_no_route (c : Cache) (now : Nat) (sid : Str) (answer 
       | authorized => simp [Cache.store]
       | sidNotFound =>
         unfold Cache.invalidate
-        cases c.get e.id with
-        | none => simp
-        | some _ => simp only []; intro h; exact (List.mem_filter.mp h).1
+        intro h; exact (List.mem_filter.mp h).1
       | broken =>
         unfold Cache.invalidate
-        cases c.get e.id with
-        | none => simp
-        | some _ => simp only []; intro h; exact (List.mem_filter.mp h).1
+        intro h; exact (List.mem_filter.mp h).1
       | other rc => simp
 
 
